@@ -162,6 +162,11 @@ void dump_record(const RunRecord& rec) {
 
 }  // namespace drvsim
 
+// in-process driver entry for the intercepted system() of the C08 loop
+namespace mp {
+int RunBackendApp_forC08(char** argv) { return RunBackendApp(argv, drvsim::CreateSimBackend); }
+}
+
 // ------------------------------------------------------------------ engine
 namespace {
 
